@@ -1,3 +1,6 @@
+#[cfg(tablegen_lsp_verif)]
+#[allow(unused_imports)]
+use crate::verif_hooks::std_shim as std;
 #[cfg(not(tablegen_lsp_verif))]
 use std::fs;
 #[cfg(tablegen_lsp_verif)]
